@@ -2,6 +2,7 @@
   C02 — writing preserves every cue's start and end instant.  Property theorems.
 -/
 import PcVerif.Spec.Stamp
+import PcVerif.Lemmas.SamiEntryLemmas
 import PcVerif.Model.SamiWriter
 namespace PcVerif.Props.C02
 open PcVerif PcVerif.Str PcVerif.Fmt PcVerif.Spec
@@ -138,5 +139,15 @@ theorem sami_sync_plan (lang : Nat) (body : Body) (lt : Option Nat) (k : Nat) (c
 open SamiW in
 theorem sami_single_language_plan (caps : List (Rat × Rat)) : plan [caps] = specPrimary 0 none 0 caps := by
   simp [plan, writeLoop, sami_sync_plan]
+
+open SamiW in
+/-- **C02 (SAMI, any number of languages).** the paragraphs of the written document — each with the start of the SYNC
+    block it sits in — are, as a multiset, exactly what the per-language plans list: for every cue one paragraph at its
+    start millisecond; a blank paragraph at the previous cue's end millisecond unless this cue starts in that very
+    millisecond; nothing for the end of a language's last cue.  Nothing else is written and nothing is lost, whatever the
+    languages' cues are (unsorted, overlapping, interleaved with the other languages). -/
+theorem sami_plan_entries (langs : List (List (Rat × Rat))) :
+    List.Perm (entries (plan langs)) ((langs.zipIdx 0).flatMap (fun p => langEntries p.2 none 0 p.1)) :=
+  SamiW.plan_entries langs
 
 end PcVerif.Props.C02
